@@ -15,6 +15,7 @@ def dispatch (req : Sexp) : Except String Sexp :=
     match cmd with
     | "ping" => .ok (.atom "pong")
     | "exec" => Driver.handleExec args
+    | "reads" => Driver.handleReads args
     | "simp" => Driver.handleSimp args
     | "pure" => Driver.handlePure args
     | "mentions" => Driver.handleMentions args
